@@ -9,7 +9,9 @@ value tokens:  N | B0 | B1 | I<int> | F<bits> | S<text-without-blanks> | R<addr>
   GLOBAL <name> <value>
   EXT <recv-value> <fn> <nargs> <args…> <result-value>      the oracle's answer to one extern call
   EXTANY <recv-value> <fn> <result-value>                   … whatever the arguments
-  RUN <fn> <nargs> <args…> OBS <m> {<addr> <field>}*         run, then report the result and the fields
+  EXCLUDE <qualified-name>                                  treat a translated function as extern
+  RUN <fn> <nargs> <args…> OBS <m> {<addr> <field>}* [RETF <k> {<field>}*]    run, then report the result, the
+      listed fields, and (RETF) the listed fields of the object(s) the call returned
       -> RES OK <value> | RES ERR <kind> <text>   then   FLD <addr> <field> <value|->   …   then
          CALLS <k> {<fn>}*   END
   RESET                                    forget heap, globals, oracle
@@ -62,6 +64,7 @@ structure DS where
   ext : List (String × Val) := []        -- key (printed recv fn args) ↦ answer
   extAny : List (String × Val) := []     -- key (printed recv fn) ↦ answer, whatever the arguments
   nums : Array Float := #[]
+  exclude : List String := []            -- translated functions to be treated as extern
 
 def rhoOf (d : DS) : Rho Float :=
   { i := fun _ => 0, n := fun k => d.nums.getD k 0.0, b := fun _ => false }
@@ -182,6 +185,7 @@ def step (d : DS) (line : String) : DS × List String :=
        | none => (d, ["E bad EXT line"]))
     | .ok _ => (d, ["E bad EXT line"])
     | .error e => (d, [s!"E {e}"])
+  | ["EXCLUDE", fn] => ({ d with exclude := fn :: d.exclude }, [])
   | "EXTANY" :: rest =>
     match pVal d rest with
     | .ok (recv, d, fn :: ts) =>
@@ -200,7 +204,7 @@ def step (d : DS) (line : String) : DS × List String :=
         let ρ := rhoOf d
         let extTab := d.ext
         let env : Env :=
-          { prog := PamsGen.Code.prog,
+          { prog := PamsGen.Code.prog.filter (fun e => !(d.exclude.contains e.1)),
             globals := fun x => (d.globals.find? (fun e => e.1 = x)).map (·.2),
             ext := fun st recv f as =>
               match extTab.find? (fun e => e.1 = callKey ρ recv f as) with
@@ -208,8 +212,12 @@ def step (d : DS) (line : String) : DS × List String :=
               | none => (d.extAny.find? (fun e => e.1 = showVal ρ recv ++ " " ++ f)).map (fun e => (e.2, st)) }
         let st0 : St := { heap := heapFn d.heap, calls := [] }
         let r := sem ρ env 400 fn args st0
+        let (obsToks, retFields) : List String × List String :=
+          match ts.span (· ≠ "RETF") with
+          | (a, _ :: _ :: fs) => (a, fs)
+          | (a, _) => (a, [])
         let obsSpec : List (Nat × String) :=
-          match ts with
+          match obsToks with
           | "OBS" :: _ :: more =>
             let rec pairs : List String → List (Nat × String)
               | a :: f :: rest => (a.toNat!, f) :: pairs rest
@@ -220,7 +228,13 @@ def step (d : DS) (line : String) : DS × List String :=
         | .ok (v, st) =>
           let flds := obsSpec.map (fun af =>
             s!"FLD {af.1} {af.2} " ++ (match st.heap af.1 af.2 with | some w => showVal ρ w | none => "-"))
-          (d, [s!"RES OK {showVal ρ v}"] ++ flds ++
+          let retObjs : List Nat := match v with
+            | .ref a => [a]
+            | .list l => l.filterMap (fun x => match x with | .ref a => some a | _ => none)
+            | _ => []
+          let rets := (retObjs.zipIdx).flatMap (fun ai => retFields.map (fun f =>
+            s!"RETF {ai.2} {f} " ++ (match st.heap ai.1 f with | some w => showVal ρ w | none => "-")))
+          (d, [s!"RES OK {showVal ρ v}"] ++ flds ++ rets ++
               [s!"CALLS {st.calls.length}" ++ String.join (st.calls.reverse.map (fun c => " " ++ c.fn)), "END"])
         | .error e => (d, [s!"RES ERR {showErr e}", "END"])
   | _ => (d, [s!"E unknown line {line}"])
